@@ -122,13 +122,20 @@ def search(ctx, binp, n):
         base = r["kind"].split("+")[0]
         kinds[base] = kinds.get(base, 0) + 1
         inp = {"src": r["src"], "cancel_ms": r["cancel_ms"], "stdin": r.get("stdin", "")}
+        if r.get("lang"):
+            inp["lang"] = r["lang"]
         if r.get("pre"):
             inp["pre_on_same_runner"] = r["pre"]
         bound_us_case = bound_us
         if r.get("exec_kill_ms") is not None:
             # a real external child (sleep) run by interp.DefaultExecHandler(t): bound = max(t, 0) + margin
             inp["exec_kill_ms"] = r["exec_kill_ms"]
-            bound_us_case = int((max(r["exec_kill_ms"], 0) / 1000.0 + MARGIN_S) * 1e6)
+            # (for the short timeouts the margin is 1 s, so that a child killed after the 2 s DEFAULT instead of
+            # the configured timeout is out of bound)
+            margin = MARGIN_S if r["exec_kill_ms"] >= 1000 else 1.0
+            bound_us_case = int((max(r["exec_kill_ms"], 0) / 1000.0 + margin) * 1e6)
+            if r.get("files"):
+                inp["scratch_files"] = r["files"]
         if g.get("parse_err"):
             ctx.broken.append(("harness-run", "generated program does not parse: %s" % r["src"]))
             continue
@@ -151,6 +158,8 @@ def search(ctx, binp, n):
         worst = max(worst, g["latency_us"])
         if g["latency_us"] > bound_us_case:
             ctx.fail("latency_within_kill_timeout_plus_margin", inp, None, {"latency_us": g["latency_us"]})
+        if g.get("late_bytes", 0) > 0:
+            ctx.fail("nothing_written_after_run_returned", inp, None, {"late_bytes": g["late_bytes"]})
         if g.get("status", 0) == 0 and not g.get("err"):
             # narrow class, decided on the syntax tree by the harness (blockedLast): the last command of the
             # main thread is read/wait/select or a loop whose condition is such a read
@@ -186,7 +195,7 @@ def run(ctx):
                 "extra constructs, x cancellation after 0,1,3,10,30,100,250 ms; code leg: core programs repeated 4 times, "
                 "cancelled at byte 1..60 of stdout; non-trivial = distinct (program, cancellation)")
     code_leg(ctx, binp, 150 if quick else 1500)
-    search(ctx, binp, 90 if quick else 600)
+    search(ctx, binp, 100 if quick else 600)
     ctx.assumptions += ["real time is measured, not modelled: bound = default exec kill timeout (2 s, read from interp/api.go) + 2 s",
                         "a case slower than 1.5 s is re-run alone before it counts (load)",
                         "cancellation in the model happens at stop() calls; the harness cancels inside a Write of stdout, "
